@@ -33,6 +33,12 @@ pub fn sweep_event_idx<const N: usize>(lo: u32, hi: u32, full: bool) -> SweepRes
         let e = h.dma_containing(ev_paddr, 2).expect("device area is live DMA memory");
         (e.vaddr + (ev_paddr - e.paddr) as usize) as *mut u16
     });
+    // used.flags: with event index negotiated the driver must ignore it, so it is set to 1
+    // (VIRTQ_USED_F_NO_NOTIFY) for half of the inputs.
+    let fl_ptr: *mut u16 = hal::with(|h| {
+        let e = h.dma_containing(a.device, 2).expect("device area is live DMA memory");
+        (e.vaddr + (a.device - e.paddr) as usize) as *mut u16
+    });
     let mut r = SweepResult { evaluations: 0, must_notify_cases: 0, notified: 0, first_failures: vec![], failures: 0 };
     if lo > 0 {
         q.verif_warp(lo as u16);
@@ -42,8 +48,11 @@ pub fn sweep_event_idx<const N: usize>(lo: u32, hi: u32, full: bool) -> SweepRes
         let new = new as u16;
         assert_eq!(q.verif_snapshot().avail_idx, new);
         let mut eval = |event: u16, r: &mut SweepResult| {
-            // SAFETY: pointer into live DMA memory of this thread's queue.
-            unsafe { std::ptr::write_volatile(ev_ptr, event) };
+            // SAFETY: pointers into live DMA memory of this thread's queue.
+            unsafe {
+                std::ptr::write_volatile(ev_ptr, event);
+                std::ptr::write_volatile(fl_ptr, sweep_flag(new, event));
+            }
             let got = q.should_notify();
             r.evaluations += 1;
             if got {
@@ -79,6 +88,11 @@ pub fn sweep_event_idx<const N: usize>(lo: u32, hi: u32, full: bool) -> SweepRes
     }
     drop(q);
     r
+}
+
+/// The value of used.flags during the event-index sweep for this input (to be ignored by the driver).
+pub fn sweep_flag(new: u16, event: u16) -> u16 {
+    new.wrapping_add(event) & 1
 }
 
 /// Without event-idx: result must be exactly "suppression flag clear", for every index.
@@ -155,6 +169,9 @@ impl CoSim {
             // "Notify me when you pass this index": the next one, or one already passed.
             let ev = if suppress { self.refq.last_avail.wrapping_sub(1) } else { self.refq.last_avail };
             let _ = self.refq.set_avail_event(ev);
+            // The flags word means nothing once event index is negotiated; this device leaves
+            // NO_NOTIFY set in it.
+            let _ = self.refq.set_used_flags(1);
         } else {
             let _ = self.refq.set_used_flags(if suppress { 1 } else { 0 });
         }
@@ -315,6 +332,7 @@ pub fn sweep_point<const N: usize>(new: u16, event: u16) -> (bool, bool) {
     let a = dev.borrow().queue_addrs(0).unwrap();
     q.verif_warp(new);
     hal::with(|h| h.dev_write(a.device + 4 + 8 * N as u64, &event.to_le_bytes())).unwrap();
+    hal::with(|h| h.dev_write(a.device, &sweep_flag(new, event).to_le_bytes())).unwrap();
     let got = q.should_notify();
     (got, vring_need_event(event, new, new.wrapping_sub(N as u16)))
 }
